@@ -185,7 +185,9 @@ def run_case(case: dict) -> CaseResult:
             await asyncio.sleep(cb_delay["error"] / 64)
         env.log("rl_on_error", exc=type(e).__name__)
 
-    rl = ReconnectLogic(client=cli, on_connect=on_connect, on_disconnect=on_disconnect, name="dev" if named else None, on_connect_error=on_error)
+    supplied_zc = world.supplied_async() if case.get("supplied_zc") else None
+    rl = ReconnectLogic(client=cli, on_connect=on_connect, on_disconnect=on_disconnect, name="dev" if named else None, on_connect_error=on_error,
+                        **({"zeroconf_instance": supplied_zc} if supplied_zc is not None else {}))
     ptr_alias, a_name = "dev._esphomelib._tcp.local.", "dev.local."
     if case.get("cached"):
         # the zeroconf cache already holds the device's (unexpired) records, as it does in any running installation
@@ -309,6 +311,7 @@ def judge(env, world, case, viol, classes) -> None:
     for e in tr:
         if e["kind"] == "state":
             conn_state.setdefault(e["conn"], []).append((e["seq"], e["t"], e["value"].name))
+    supplied_ids = {e["zc"] for e in tr if e["kind"] == "zc_new" and e.get("supplied")}
     # ---------------- walk
     stopped = True          # manager starts stopped
     stop_returned_seq = None
@@ -376,7 +379,12 @@ def judge(env, world, case, viol, classes) -> None:
                     viol.append(V("c18:not-listening-while-waiting", f"after the failure reported at t={must_listen_since:.6f} the manager waits for its retry timer but has no mDNS listener registered (seen at t={t:.6f}): a record for the device could not trigger a reconnect"))
                 must_listen_since = None
         if k == "zc_listen":
-            listening = True
+            if case.get("supplied_zc") and e["zc"] not in supplied_ids:
+                # the application supplied the zeroconf instance its records arrive on: a listener registered elsewhere
+                # hears none of them
+                classes.add("listening_on_a_private_instance_although_one_was_supplied")
+            else:
+                listening = True
             listen_zc.add(e["zc"])
         elif k == "zc_unlisten":
             listening = False
@@ -679,6 +687,8 @@ def _case(draw, tier):
         case["name_late"] = True
     if draw(st.integers(0, 3)) == 0:
         case["cached"] = True
+    if case["addr"] in ("ip", "name") and draw(st.integers(0, 3)) == 0:
+        case["supplied_zc"] = True
     if draw(st.integers(0, 3)) == 0:
         # slow user callbacks; start()/stop() racing with a callback that is still running is outside the statement,
         # so these histories keep only the initial start()
@@ -725,6 +735,16 @@ def _late_name_cases():
                        "events": [{"t": 0, "do": "start"}, {"t": 128, "do": "end", "how": how}, {"t": 128 + 64 * (6 + 2 * k), "do": "mdns", "rec": rec}], "horizon": 120}
 
 
+def _supplied_instance_cases():
+    """The application supplies the zeroconf instance; the manager is stopped and started again; attempts keep failing:
+    while it waits it listens on THAT instance."""
+    for how in ("stop", "stop_cb"):
+        for rec in ("ptr", "a"):
+            yield {"named": True, "addr": "ip", "K": 4.0, "supplied_zc": True, "plan": [["refuse", 2]] * 2 + [["ok"], ["refuse", 2], ["refuse", 2], ["refuse", 2], ["ok"]],
+                   "events": [{"t": 0, "do": "start"}, {"t": 64 * 20, "do": how}, {"t": 64 * 25, "do": "end", "how": "reset"}, {"t": 64 * 30, "do": "start"}, {"t": 64 * 36, "do": "mdns", "rec": rec}], "horizon": 120}
+            yield {"named": True, "addr": "ip", "K": 4.0, "supplied_zc": True, "plan": [["refuse", 2]] * 3 + [["ok"]], "events": [{"t": 0, "do": "start"}, {"t": 64 * 4, "do": "mdns", "rec": rec}], "horizon": 60}
+
+
 def _cached_record_cases():
     """The zeroconf cache already holds the device's records when the manager starts waiting; a record arriving during
     the wait still triggers the attempt."""
@@ -761,6 +781,7 @@ def enumerated(tier):
     yield from _stop_in_flight_restart_cases()
     yield from _stop_start_same_instant_cases()
     yield from _cached_record_cases()
+    yield from _supplied_instance_cases()
     yield from _late_name_cases()
     yield from _local_end_cases()
     yield from _derived_name_cases()
